@@ -5,11 +5,15 @@ use crate::rng::Rng;
 use crate::s_enc;
 use crate::s_sink::hex;
 use crate::sig;
+#[cfg(feature = "hdecode")]
 use flacenc::component::{BitRepr, Decode};
+#[cfg(feature = "hdecode")]
 use flacenc::bitsink::ByteSink;
+#[cfg(feature = "hdecode")]
 use flacenc::error::Verify;
 use std::fmt::Write as _;
 
+#[cfg(feature = "hdecode")]
 fn hexbytes(s: &str) -> Vec<u8> { if s == "-" { vec![] } else { (0..s.len() / 2).map(|i| u8::from_str_radix(&s[2 * i..2 * i + 2], 16).unwrap()).collect() } }
 
 pub fn fnv(v: &[i32]) -> String {
@@ -65,6 +69,10 @@ pub fn gen(seed: u64, n: usize, out: &mut String) {
     }
 }
 
+#[cfg(not(feature = "hdecode"))]
+pub fn run(id: &str, _rest: &str) -> String { format!("{} unsupported-build", id) }
+
+#[cfg(feature = "hdecode")]
 pub fn run(id: &str, rest: &str) -> String {
     let t: Vec<&str> = rest.split(' ').collect();
     let bytes = hexbytes(t[2]);
